@@ -1,5 +1,5 @@
 SPECIFICATION TraceSpec
-CONSTANT NCtx = 8
+CONSTANT NCtx = 16
 INVARIANT NoRace
 POSTCONDITION TraceAccepted
 CHECK_DEADLOCK FALSE
